@@ -42,6 +42,23 @@ CHECKS = {
  "C10": dict(tech="TLA+ representation model Storage.tla (TLC enumerates entry point x composition x container x dtype exhaustively, with the outcome the documentation promises) replayed on the real code against the dense-Fortran-float64 run; RelTrace facts same, not_refused, refuse_explained",
              text="The full finite product of representations and entry points is enumerated by TLC; each is executed and TLC judges equality with the canonical run (tolerance-based, float32 relaxed) or the explanatory refusal.", ref="6 C10",
              note="Trusted: the dense-F-float64 run as reference (covered by C01), the keyword rule for 'names the representation'. Quick tier: stratified sample of the enumerated product; thorough: all of it."),
+ "C02": dict(tech="relation catalogue Relations.tla[Family=C02] (TLC enumerates family x applicable skglm solver/estimator x storage x intercept exhaustively) replayed against independent references (scikit-learn, celer, an LP for the quantile loss, the scaled-Lasso fixed point for sqrt-Lasso); RelTrace facts agree / unique_same_w judged by TLC",
+             text="Every applicable skglm solver and ready-made estimator of each convex family is run to tight tolerance and TLC judges its oracle objective / coefficients against the reference optimum.", ref="6 C02", note=REL_NOTE),
+ "C11": dict(tech="TLA+ transcription of every estimator docstring as an objective descriptor (Estimator.tla, TLC -simulate over constructor arguments) + real fits; the oracle evaluates the first-order residual of the DOCUMENTED objective at (coef_, intercept_); RelTrace facts stationary, primal_image, dual_feasible, refused_as_documented, intercept_param",
+             text="Constructor-argument tuples and the objective the documentation promises come from the spec; TLC judges stationarity of the fitted attributes for that objective (dual feasibility and primal image for LinearSVC).", ref="6 C11",
+             note="Trusted: transcription of the class docstrings in Estimator.tla; harness/oracle; fits at tol 1e-9 judged at 1e-6*scale."),
+ "C12": dict(tech="TLA+ model of label encoding / one-vs-rest / renaming (Classifier.tla, exhaustive enumeration of label alphabets x class counts x renamings x estimators) + real fits incl. per-class binary fits and fits on renamed labels; RelTrace facts predict_is_argmax, decision_is_linear, proba_*, rename, ovr_row_equals_binary_fit",
+             text="TLC enumerates the scenarios and judges, for each fitted classifier, predictions against classes_[argmax decision], probabilities, the effect of renaming the labels, and one-vs-rest rows against the separately fitted binary models (intercepts included).", ref="6 C12",
+             note="Trusted: numpy recomputation of X coef^T + intercept; binary fits of the same estimator as OvR reference; separated clusters with n > p."),
+ "C14": dict(tech="relation catalogue Relations.tla[Family=C14] (21 reduction kinds x storage x intercept, exhaustive) replayed on the real code; RelTrace fact agree (objective and, when unique, coefficients); definition-level coincidence on the exact lattices by PenVec/DataVec",
+             text="Each general component configured to coincide with a simpler one is solved next to it and TLC judges agreement of the oracle objective / coefficients.", ref="6 C14", note=REL_NOTE),
+ "C15": dict(tech="relation catalogue Relations.tla[Family=C15] (10 transformations x 11 solver compositions x storage x intercept, exhaustive, applicability decided in the spec) replayed on the real code with the induced map on solutions; RelTrace fact equivariant",
+             text="Original and transformed problems (feature / group / within-group / task / sample permutations, stacking, scaling of y and alpha, rescaling a feature with its weight) are solved and TLC judges the mapped solutions.", ref="6 C15", note=REL_NOTE),
+ "C16": dict(tech="relation catalogue Relations.tla[Family=C16] (11 penalty families x solvers/estimators x storage x intercept) with the critical strength computed independently (optimal unpenalised part first); RelTrace facts alpha_max_eq, null, null_unpenalised_optimal, nonnull",
+             text="The critical alpha of the documented objective is computed by the oracle (intercept and zero-weight features optimised first); TLC judges the library's alpha_max against it, exact zeros and an optimal unpenalised part just above it, and a non-zero coefficient just below it.", ref="6 C16", note=REL_NOTE),
+ "C18": dict(tech="TLA+ history model Purity.tla (TLC -simulate + permanent sentinel histories) executed one process per history, every fit compared with the same fit alone in a fresh process; RelTrace facts inputs_untouched, refit_ok, same_as_fresh, alive",
+             text="Histories of fits, paths, set_params, clone / deepcopy / pickle of estimators and of bare datafit / penalty instances over estimators sharing compiled classes and data of different dtype / storage; TLC judges byte-identity of inputs, success of every fit and equality with fresh-process results.", ref="6 C18",
+             note="Trusted: process isolation (one interpreter per history), tobytes() equality. Quick tier: 14 random histories + 10 sentinels (each history costs a full numba JIT)."),
 }
 NA = []
 checks = []
